@@ -2,6 +2,7 @@ CONSTANTS Menu = "C08"
  MaxTail = 3
  Layouts = {"siblings", "nested", "root"}
  AllPlants = FALSE
+ Lite = FALSE
  Flavours <- Flav_plain
 INIT HInit
 NEXT HNext
